@@ -48,3 +48,18 @@ Theorem C18_one_per_node : forall ss n s,
   In s ss /\ s_status s = SET_VALID /\ strict_selector_matches (s_selector s) (n_labels n) = true.
 Proof. exact attached_setting_valid. Qed.
 Print Assumptions C18_one_per_node.
+
+(** a reconcile that could not read the settings or the nodes never turns a setting valid: afterwards a setting is valid
+    only if it was so before (the verdict could not be renewed) or everything was read and the rule makes it valid *)
+Theorem C18_valid_only_by_the_rule : forall inst all nodes fs fn,
+  fst (setting_sync inst all nodes fs fn) = SET_VALID ->
+  (fs = true /\ s_status inst = SET_VALID) \/
+  (fs = false /\ fn = false /\ setting_valid inst (settings_of_ns (s_ns inst) all) nodes = true).
+Proof. exact valid_only_by_the_rule. Qed.
+Print Assumptions C18_valid_only_by_the_rule.
+
+(** ... and a setting without a reference is put in error whatever could be read *)
+Theorem C18_noref_error_always : forall inst all nodes fs fn,
+  has_reference inst = false -> setting_sync inst all nodes fs fn = (SET_ERROR, true).
+Proof. exact noref_error_always. Qed.
+Print Assumptions C18_noref_error_always.
